@@ -166,3 +166,35 @@ func vH_C02_open_response_reliable() {
 	vAssert(len(vOutputs) == 0, "it does not bypass the queue")
 	vAssert(s.isState(sessionEstablished), "the server session is established")
 }
+
+// H15.2 a waiter parked on back-pressure is released by a close that lands
+// WHILE it waits.  The receive queue stays full (segmentTree.Remaining is
+// redirected: always 0); the environment - another goroutine calling Close -
+// closes the session during the second look at the queue.  The real
+// waitForRecvQueueSpace must give up right afterwards instead of polling on.
+var vWaitSession *Session
+var vWaitLooks int
+
+func vStubRemainingFull(t *segmentTree) int {
+	vWaitLooks++
+	vAssert(vWaitLooks <= 3, "a waiter parked on a full queue is released once the session is closed (it does not keep polling)")
+	if vWaitLooks == 2 && vWaitSession != nil {
+		close(vWaitSession.closedChan)
+	}
+	return 0
+}
+
+func vH_C15_wait_released_by_close() {
+	isClient := vNondetBool("isClient")
+	tr := common.StreamTransport
+	if vNondetBool("packet") {
+		tr = common.PacketTransport
+	}
+	s := vNewSession(7, isClient, tr)
+	s.forwardStateTo(sessionAttached)
+	s.forwardStateTo(sessionEstablished)
+	vWaitSession, vWaitLooks = s, 0
+	ok := s.waitForRecvQueueSpace()
+	vAssert(!ok, "the waiter reports that the session went away")
+	vAssert(vWaitLooks >= 2, "the close landed while it was parked")
+}
